@@ -4,6 +4,7 @@ states on a virtual-time loop, plus a two-ended handshake oracle over a lossy / 
 from __future__ import annotations
 
 import asyncio
+import datetime as _dt
 import logging
 import re
 
@@ -422,8 +423,72 @@ def phase_correspondence(ctx: Ctx, built: bool) -> None:
                    f"{len(bad)} of {len(cases)} differ; first: {bad[0][0]} model {bad[0][1]} implementation {bad[0][2]}" if bad else f"{len(cases)} (code, verb, destination, phase) combinations agree")
 
 
+def real_routing() -> dict:
+    """Which 1FC9 frames the REAL dispatcher.process_msg hands to a binding device that did not send them: {(phase, "me" | "other"): bool}, "me" = the
+    frame is addressed to that device (or to itself / the broadcast address, for an offer), "other" = to some other device."""
+    import io  # noqa: PLC0415
+
+    from ramses_rf import Gateway  # noqa: PLC0415
+    from ramses_rf.dispatcher import process_msg  # noqa: PLC0415
+    from ramses_tx.message import Message  # noqa: PLC0415
+    from ramses_tx.packet import Packet  # noqa: PLC0415
+
+    out = {}
+
+    async def main():
+        gwy = Gateway(None, input_file=io.TextIOWrapper(io.BytesIO(b"")), config={"disable_discovery": True, "enforce_known_list": False})
+        await gwy.start()
+        heard = []
+        me = gwy.get_device("07:222222")
+        other = gwy.get_device("07:333333")
+        for d in (me, other):
+            d._bind_context = type("B", (), {"is_binding": True})()
+            d._handle_msg = (lambda m, d=d: heard.append(d.id))
+        from ramses_tx.command import Command  # noqa: PLC0415
+        frames = {("offer", "me"): str(Command.put_bind(" I", "01:111111", ["1260"], None)),
+                  ("offer", "other"): " I --- 29:158183 63:262142 --:------ 1FC9 006 0012607669E7",
+                  ("accept", "me"): str(Command.put_bind(" W", "01:111111", ["1260"], "07:222222")),
+                  ("accept", "other"): str(Command.put_bind(" W", "01:111111", ["1260"], "07:888888")),
+                  ("confirm", "me"): str(Command.put_bind(" I", "01:111111", ["1260"], "07:222222")),
+                  ("confirm", "other"): str(Command.put_bind(" I", "01:111111", ["1260"], "07:888888"))}
+        for k, (key, frame) in enumerate(frames.items()):
+            heard.clear()
+            msg = Message(Packet.from_port(_dt.datetime(2026, 1, 1, 12, 0, k), "045 " + frame))
+            process_msg(gwy, msg)
+            for _ in range(6):
+                await asyncio.sleep(0)
+            out[key] = "07:222222" in heard
+        await gwy.stop()
+
+    loop = asyncio.new_event_loop()
+    asyncio.set_event_loop(loop)
+    try:
+        loop.run_until_complete(main())
+    finally:
+        asyncio.set_event_loop(None)
+        loop.close()
+    return out
+
+
 def handshakes(ctx: Ctx, n: int) -> None:
-    """Respondent and supplicant contexts over a scripted medium."""
+    """Respondent and supplicant contexts over a scripted medium whose routing is the REAL dispatcher's (asked once per run)."""
+    try:
+        route = real_routing()
+    except Exception as err:  # noqa: BLE001
+        route = None
+        ctx.obligation("correspondence:dispatcher-routing", False, "correspondence", f"the real dispatcher could not be asked: {type(err).__name__}: {err}"[:300])
+    rule = {("offer", "me"): True, ("offer", "other"): True, ("accept", "me"): True, ("accept", "other"): False, ("confirm", "me"): True, ("confirm", "other"): False}
+    if route is not None:
+        diff = {f"{k[0]} addressed to {k[1]}": (route[k], rule[k]) for k in rule if route[k] != rule[k]}
+        ctx.obligation("correspondence:dispatcher-routing", not diff, "correspondence",
+                       f"the real dispatcher routes 1FC9 frames to binding devices otherwise than the handshake model assumes (real, assumed): {diff}" if diff
+                       else "offers reach every binding device; accepts and confirms reach their addressee only (asked of the real process_msg)")
+        for k in (("accept", "other"), ("confirm", "other")):
+            if route[k]:
+                ctx.violation(f"another-pairs-{k[0]}-reaches-a-binding-device", f"a 1FC9 {k[0]} addressed to ANOTHER device is handed to a device that is binding (which takes it for its own peer's)",
+                              {"frame_kind": k[0], "addressed_to": "another device", "delivered_to": "07:222222 (binding)"}, "schedule")
+    else:
+        route = rule
     import ramses_rf.binding_fsm as B  # noqa: PLC0415
     from ramses_rf import exceptions as rexc  # noqa: PLC0415
     from ramses_tx import exceptions as texc  # noqa: PLC0415
@@ -481,7 +546,7 @@ def handshakes(ctx: Ctx, n: int) -> None:
                     for did, c in ctxs.items():   # routing as dispatcher.process_msg does it
                         if did == self.id:
                             loop.call_soon(deliver, c, msg)            # the sender sees its own echo
-                        elif plan["lose"] != phase and (phase == "offer" or cmd.dst.id == did):
+                        elif plan["lose"] != phase and route[(phase, "me" if phase == "offer" or cmd.dst.id == did else "other")]:
                             for _ in range(plan["repeat"]):
                                 loop.call_soon(deliver, c, msg)
                     return pkt
@@ -528,7 +593,7 @@ def handshakes(ctx: Ctx, n: int) -> None:
                          "offer-all": " I --- 29:158183 63:262142 --:------ 1FC9 006 0012607669E7",
                          "accept": " W --- 01:999999 07:888888 --:------ 1FC9 006 0012600743AF"}[plan["third_party"]]
                 stray = Message._from_cmd(Command(frame))
-                offers_only = plan["third_party"] != "accept"     # an accept is addressed: only its destination would see it
+                offers_only = plan["third_party"] != "accept" or route[("accept", "other")]     # an accept is addressed: only its destination sees it
                 for k in range(3):
                     loop.call_later(plan["third_party_at"] + plan["delay"] * k, lambda: [c.rcvd_msg(stray) for c in ctxs.values() if c.is_binding and offers_only])
             out["first"] = await attempt(1)
